@@ -28,9 +28,18 @@ VERSIONS = ["1", "1.0", "1.9", "1.10", "1.10.0", "2", "0.9.9", "10.0", "1.2.3.4"
 NAMES = ["alpha", "beta", "gamma", "delta"]
 
 
-def mk(seq):
-    """seq: list of (name, version); returns live dependency objects with distinguishing content."""
-    return [ht.HTMLDependency(n, v, script={"src": "f%d.js" % i}) for i, (n, v) in enumerate(seq)]
+def mk(seq, share=False):
+    """seq: list of (name, version); returns live dependency objects with distinguishing content.  With share=True an
+    entry equal to an earlier one re-uses that very object (the same dependency placed at several positions)."""
+    out, first = [], {}
+    for i, (n, v) in enumerate(seq):
+        if share and (n, v) in first and i % 2:
+            out.append(first[(n, v)])
+            continue
+        d = ht.HTMLDependency(n, v, script={"src": "f%d.js" % i})
+        first.setdefault((n, v), d)
+        out.append(d)
+    return out
 
 
 def _div(*c):
@@ -105,9 +114,9 @@ def same_ids(a, b):
     return len(a) == len(b) and all(x is y for x, y in zip(a, b))
 
 
-def check_seq(ctx, seq, shapes=SHAPES):
-    wit = {"sequence": seq}
-    deps = mk(seq)
+def check_seq(ctx, seq, shapes=SHAPES, share=False):
+    wit = {"sequence": seq, "same_object_reused": share}
+    deps = mk(seq, share)
     want = refdeps.resolve(deps, name=lambda d: d.name, version=lambda d: str(d.version))
     # the reference must use the user's version string, not the library's parse: map back
     want = refdeps.resolve(list(zip(seq, deps)), name=lambda it: it[0][0], version=lambda it: it[0][1])
@@ -116,8 +125,9 @@ def check_seq(ctx, seq, shapes=SHAPES):
         root = place(shape, deps)
         got = root.get_dependencies()
         ctx.count("oracle.resolution")
-        w = dict(wit, shape=shape, got=[(d.name, str(d.version), deps.index(d) if d in deps else -1) for d in got],
-                 want=[(d.name, str(d.version), deps.index(d)) for d in want])
+        idx = {id(d): i for i, d in reversed(list(enumerate(deps)))}
+        w = dict(wit, shape=shape, got=[(d.name, str(d.version), idx.get(id(d), -1)) for d in got],
+                 want=[(d.name, str(d.version), idx.get(id(d), -1)) for d in want])
         if not same_ids(got, want):
             ctx.violation(_classify(got, want, deps), "get_dependencies() in shape %s is not the reference resolution" % shape, w)
             return False
@@ -254,7 +264,7 @@ def nontrivial(seq):
 def replay(ctx, w):
     install_contract(ctx)
     try:
-        check_seq(ctx, [tuple(x) for x in w["sequence"]])
+        check_seq(ctx, [tuple(x) for x in w["sequence"]], share=w.get("same_object_reused", False))
     finally:
         contracts.unpatch_all()
 
@@ -300,5 +310,5 @@ def _run(ctx):
     ctx.sample({"sequence": multisets[0], "resolved": [(d.name, str(d.version)) for d in ht.TagList(*mk(multisets[0])).get_dependencies()]})
     for _ in range(ctx.budget(1500, 1000000)):
         seq = rand_seq(rng, rng.choice([0, 1, 2, 3, 4, 5, 7, 9, 12]))
-        check_seq(ctx, seq)
+        check_seq(ctx, seq, share=rng.random() < 0.3)
         ctx.case(seq, nontrivial=nontrivial(seq))
